@@ -6,7 +6,8 @@
 //! Object encoding:  kind payload
 //!   0 Dual <dual> | 1 Dual2 <dual2> (numenc)            2 Cal  nmask mask* nhols hols*
 //!   3 UnionCal ncals cal* has_settle [ns cal*]           4 NamedCal name
-//!   5 FXRates nq (name name number has_settle [d])* has_base [name] order(0|1|2)
+//!   5 FXRates nq (name name number has_settle [d])* has_base [name] order(0|1|2) nupd (name name number has_settle [d])*
+//!             (the market is constructed, then `update`d with the nupd quotes, then switched to `order`)
 //!   6 Curve nodekind(0|1|2) nn (day value)* rule(0..5) id(name) conv(0..10) modifier(0..4)
 //!           has_base [bits] calkind(0 Cal|1 UnionCal|2 NamedCal) cal
 //!   7|8|9 PPSpline F64|Dual|Dual2: k nt t* has_c [nc c*]
@@ -165,6 +166,19 @@ fn read_fx(r: &mut Rd) -> Result<FXRates, ()> {
         None => None,
     };
     let mut fx = FXRates::try_new(rates, b).map_err(|_| ())?;
+    // the object may have a history: quotes re-marked through `update` before it is saved
+    let nupd = r.next() as usize;
+    let mut upd = Vec::new();
+    for _ in 0..nupd {
+        let l = read_name(r);
+        let rr = read_name(r);
+        let x = read_number(r);
+        let s = if r.next() == 1 { Some(from_n(r.next())) } else { None };
+        upd.push(FXRate::try_new(&l, &rr, x, s).map_err(|_| ())?);
+    }
+    if !upd.is_empty() {
+        fx.update(upd).map_err(|_| ())?;
+    }
     let ad = match order {
         0 => ADOrder::Zero,
         2 => ADOrder::Two,
